@@ -1,2 +1,3 @@
 import SedpackProofs.Hash
 import SedpackProofs.Filler
+import SedpackProofs.PoolThm
